@@ -62,7 +62,7 @@ def clip_family():
     for (tk, gk) in (CLIP_KIDS[2], CLIP_KIDS[3]):
         for outer in ("nonzero", "evenodd"):
             for own, via in ((None, 0), ("nonzero", 0), ("evenodd", 0), ("nonzero", 1), ("evenodd", 1)):
-                for where in ("clippath", "ancestor"):
+                for where in ("clippath", "ancestor", "defs"):
                     kid = {"d": 2, "tag": tk, "id": "", "at": [["clip-rule", own, via]] if own else [], "g": gk, "ref": ""}
                     cp = {"d": 1, "tag": "clipPath", "id": "c1", "g": [], "ref": "",
                           "at": [["clip-rule", outer, 0]] if where == "clippath" else []}
@@ -70,6 +70,9 @@ def clip_family():
                     if where == "ancestor":
                         cp["d"], kid["d"] = 2, 3
                         nodes = [{"d": 1, "tag": "g", "id": "", "at": [["clip-rule", outer, 0]], "g": [], "ref": ""}] + nodes
+                    elif where == "defs":     # never rendered itself, but still the clipPath's parent
+                        cp["d"], kid["d"] = 2, 3
+                        nodes = [{"d": 1, "tag": "defs", "id": "", "at": [["clip-rule", outer, via]], "g": [], "ref": ""}] + nodes
                     nodes.append({"d": 1, "tag": "rect", "id": "", "at": [["fill", "red", 0], ["clip-path", "c1", 0]],
                                   "g": [0, 0, 16, 16, -1, -1], "ref": ""})
                     docs.append({"vb": [0, 0, 16, 16], "view": [0, 0, 16, 16], "root": [], "nodes": nodes})
